@@ -45,6 +45,12 @@ def gen(tier, rng):
                 b[pos // 8] ^= 0x80 >> (pos % 8)
                 cases.append("sps raw:" + hx(bytes(b)))
             cases.append("sps raw:" + hx(rb + bytes([rng.choice([0, 0, 0x80, 1, 0xff])] * rng.randrange(1, 4))))
+            # zero bytes behind the trailing bits and then more data, as an escaped NAL and chunked right behind the zeros
+            junk = rb + bytes(rng.randrange(1, 5)) + rng.choice([b"\x01", b"\x80", b"\x02\xb0", b"\xff", b"\x01\x41"])
+            nalj = g.nal_bytes(7, 3, junk)
+            cut = max(1, min(len(nalj) - 1, len(g.nal_bytes(7, 3, rb)) + rng.randrange(0, 3)))
+            cases.append("sps " + nal_src([nalj], True))
+            cases.append("sps " + nal_src([nalj[:cut], nalj[cut:]], True))
         if r < 0.05:
             for k in range(len(rb) + 1):
                 cases.append("sps raw:" + hx(rb[:k]))
